@@ -4,6 +4,7 @@ import (
 	"fmt"
 	"os"
 	"path/filepath"
+	"regexp"
 	"strings"
 
 	"github.com/evanw/esbuild/pkg/api"
@@ -102,8 +103,8 @@ func glueBehaviour(r *Rng, st *Stats, n int) {
 			}
 			continue
 		}
-		if a.Err() == "TIMEOUT" || b.Err() == "TIMEOUT" {
-			st.Histogram["timeout"]++
+		if oracleNoise(a) || oracleNoise(b) {
+			st.Histogram["oracle-noise"]++
 			continue
 		}
 		st.Note("behaviour", c.src, len(a.Log) > 1)
@@ -111,11 +112,61 @@ func glueBehaviour(r *Rng, st *Stats, n int) {
 			st.Fail("valid-program-rejected", map[string]string{"program": c.src, "options": c.desc}, c.out[1:], "accepted")
 			continue
 		}
-		if !a.Same(b) {
-			st.Fail("behaviour-differs", map[string]string{"program": c.src, "options": c.desc, "output": c.out}, b.String(), a.String())
+		if !a.Same(b) && stillDiffers(c.src, c.out) {
+			input := map[string]string{"program": c.src, "options": c.desc, "output": c.out}
+			if hoistsBlockFunction(c.out) && strictVariantAgrees(c) {
+				// attributable to Annex B.3.3 block-level function semantics (known finding C01-F)
+				input["scenario"] = "annexb-block-function-var-assigned-at-block-entry"
+			}
+			st.Fail("behaviour-differs", input, b.String(), a.String())
 		}
 		if i < 3 {
 			st.Sample(map[string]interface{}{"program": c.src, "options": c.desc, "log_len": len(a.Log)})
 		}
 	}
+}
+
+var hoistRe = regexp.MustCompile(`var ([A-Za-z_$][A-Za-z0-9_$]*) ?= ?([A-Za-z_$][A-Za-z0-9_$]*);`)
+
+// esbuild rewrites a sloppy-mode block-level `function f(){}` into
+// `let f2 = function(){}; var f = f2;` at the start of the block
+func hoistsBlockFunction(out string) bool {
+	for _, m := range hoistRe.FindAllStringSubmatch(out, -1) {
+		if strings.HasPrefix(m[2], m[1]) && len(m[2]) > len(m[1]) && strings.Trim(m[2][len(m[1]):], "0123456789") == "" {
+			return true
+		}
+	}
+	return false
+}
+
+// the same program in strict mode (block functions are then block scoped):
+// if input and output agree there, the difference is the Annex B one
+func strictVariantAgrees(c tcase) bool {
+	src := "'use strict';\n" + c.src
+	res := api.Transform(src, c.opts)
+	if len(res.Errors) > 0 {
+		return false
+	}
+	rs, err := RunNodeScripts([]string{src, string(res.Code)}, 2000)
+	if err != nil || len(rs) != 2 {
+		return false
+	}
+	if rs[0].Err() == "SyntaxError" && len(rs[0].Log) == 0 {
+		return false
+	}
+	return rs[0].Same(rs[1])
+}
+
+// a result that says nothing about the program (node under load)
+func oracleNoise(r NodeResult) bool {
+	return r.Err() == "TIMEOUT" || strings.HasPrefix(r.Err(), "HARNESS:")
+}
+
+// every glue failure is re-run in a fresh node process before it is reported
+func stillDiffers(a, b string) bool {
+	rs, err := RunNodeScripts([]string{a, b}, 4000)
+	if err != nil || len(rs) != 2 || oracleNoise(rs[0]) || oracleNoise(rs[1]) {
+		return false
+	}
+	return !rs[0].Same(rs[1])
 }
